@@ -53,6 +53,11 @@ pub assume_specification<T: Ord> [core::cmp::max] (a: T, b: T) -> (r: T)
         a.cmp_spec(&b) == core::cmp::Ordering::Greater ==> r == a,
         a.cmp_spec(&b) != core::cmp::Ordering::Greater ==> r == b;
 
+pub assume_specification<T: Ord> [core::cmp::min] (a: T, b: T) -> (r: T)
+    ensures
+        a.cmp_spec(&b) == core::cmp::Ordering::Greater ==> r == b,
+        a.cmp_spec(&b) != core::cmp::Ordering::Greater ==> r == a;
+
 pub assume_specification [std::string::String::as_bytes] (s: &std::string::String) -> (b: &[u8])
     ensures b@ == encode_utf8(s@);
 
